@@ -324,3 +324,70 @@ class RlaInit(Family):
         ctx.skolem(z3.And(0 <= t, t + 1 < k))
         ctx.add_index(t, t + 1)
         ctx.prove("returns=>strictly increasing", ev.fn(t) < ev.fn(t + 1))
+
+
+@register
+class RlaToArray(Family):
+    """decoding: result[p] = values[run(p)] bit for bit, length = events[-1].  Scatter-then-scan over 64-bit patterns:
+    array[starts[t]] = v[t-1] ^ v[t], array[0] = v[0]; prefix-xor.  Scan invariant  X(j) = v[run(j)]  (sidecar proof script)."""
+    name = "RunLengthArray.to_array"
+    qualname = "npstructures.runlengtharray:RunLengthArray.to_array"
+    serves = ["C14"]
+    timeout_ms = 30000
+    assumed = ["numpy fancy assignment (witness form)", "ufunc.accumulate(out=): acc(0)=x(0), acc(j+1)=acc(j)^x(j+1)",
+               "ndarray.view between same-size dtypes is the identity on bit patterns (float64 <-> uint64)",
+               "lemma (unproved, standard): every position p < events[-1] lies in exactly one run"]
+
+    def kinds(self):
+        return ["uint64", "float64-viewed"]
+
+    def run(self, ctx, kind):
+        a = sym_rla(ctx, kind="bv")
+        a.va.dtype = np.dtype(np.float64 if kind.startswith("float") else np.uint64)
+        m, E, V, n = a.m, a.E, a.V, a.n
+        run_ = z3.Function(fresh_name("run"), z3.IntSort(), z3.IntSort())
+        ctx.assume_forall("run", lambda p: z3.Implies(z3.And(0 <= p, p < n), z3.And(0 <= run_(p), run_(p) < m, E(run_(p)) <= p, p < E(run_(p) + 1))))
+        ctx.add_index(run_(z3.IntVal(0)), run_(z3.IntVal(0)) + 1)
+        out = a.obj.to_array()
+        ctx.prove("post.len==events[-1]", dim_term(out.shape_[0]) == n)
+        ctx.prove("post.dtype kept", z3.BoolVal(out.dtype == a.va.dtype))
+        accs = ctx.ghost.get("accumulates", [])
+        acc = accs[-1]["acc"]
+        x = accs[-1]["x"]
+        sc = ctx.ghost["scatters"][-1]
+        Z = z3.IntVal(0)
+        ctx.prove_then_assume("base.lemma: run(0) == 0", run_(Z) == 0, pool=[Z, run_(Z), run_(Z) + 1, z3.IntVal(1), m])
+        ctx.prove_then_assume("base: X(0) == v[run(0)]", acc(Z) == V(run_(Z)), pool=[Z, z3.IntVal(1), m, m - 1])
+        j = z3.Int("j")
+        ctx.skolem(z3.And(0 <= j, j + 1 < n))
+        ctx.assume(acc(j) == V(run_(j)))
+        q, r = run_(j), run_(j + 1)
+        w = sc["wit"](j + 1)
+        same = q == r
+        ctx.prove_then_assume("step.same-run.lemma: position j+1 is no run start: array[j+1] == 0", z3.Implies(same, x(j + 1) == 0),
+                              pool=[j, j + 1, q, q + 1, w, w + 1, w + 2, z3.IntVal(0)])
+        ctx.prove("step.same-run: X(j+1) == v[run(j+1)]", z3.Implies(same, acc(j + 1) == V(r)), pool=[j, j + 1])
+        ctx.prove_then_assume("step.next-run.lemma1: run(j+1) == run(j)+1 and it starts at j+1", z3.Implies(z3.Not(same), z3.And(r == q + 1, E(r) == j + 1)),
+                              pool=[j, j + 1, q, q + 1, r, r + 1])
+        ctx.prove_then_assume("step.next-run.lemma2: the scatter wrote v[q]^v[r] at j+1", z3.Implies(z3.Not(same), x(j + 1) == (V(q) ^ V(r))),
+                              pool=[j + 1, q, r, r + 1, w, w + 1, w + 2, r - 1, q + 1, z3.IntVal(0)])
+        ctx.prove("step.next-run: X(j+1) == v[run(j+1)]", z3.Implies(z3.Not(same), acc(j + 1) == V(r)), pool=[j, j + 1])
+        ctx.assume_forall("X(p) == v[run(p)] (by induction)", lambda p: z3.Implies(z3.And(0 <= p, p < n), acc(p) == V(run_(p))))
+        p = z3.Int("p")
+        t = z3.Int("t")
+        ctx.skolem(z3.And(0 <= p, p < n, 0 <= t, t < m, E(t) <= p, p < E(t + 1)))
+        ctx.prove_then_assume("post.lemma: the run containing p is unique", run_(p) == t, pool=[p, t, t + 1, run_(p), run_(p) + 1])
+        ctx.prove("post.result[p] == values[run containing p] (bit pattern)", out.get(p) == V(t), pool=[p, t])
+        ctx.prove("post.operand not modified", z3.BoolVal(a.va.buf.writes == 0 and a.ev.buf.writes == 0))
+
+    def concrete(self, case):
+        from npstructures import RunLengthArray
+        x = np.array(case["a"], dtype=case.get("dtype", "int64"))
+        got = RunLengthArray.from_array(x).to_array()
+        if got.dtype != x.dtype or got.tolist() != x.tolist():
+            return {"msg": f"from_array({case['a']}).to_array() = {got.tolist()} ({got.dtype})", "sig": "wrong:rla-to_array"}
+
+    def concretise(self, kind, model, ghost):
+        return {"a": [3, 3, 5, 3, 7, 7], "dtype": "float64" if kind.startswith("float") else "uint64"}
+
+    bounded_cases = RlaUfunc.bounded_cases
